@@ -128,7 +128,8 @@ fn exec_dd_history<D: DecisionDiagram<State = TState> + Default>(inst: &Inst, op
                                 }
                             }
                         }
-                        if c.depth <= op.layer || (c.depth == op.layer && b == op.base) { out.push(v(&["C08"], "cutset-no-progress", format!("handed-out sub-problem is not strictly deeper than the root (depth {}); {cctx}", op.layer))); }
+                        if c.depth <= op.layer || (c.depth == op.layer && b == op.base) { out.push(v(&["C08"], "cutset-no-progress", format!("handed-out sub-problem is not strictly deeper than the root (depth {}) [{}]; {cctx}", op.layer,
+                            if inst.d5_precondition(op.layer, op.base) { "D5-precondition holds: the children of the root are not all expanded at the same layer" } else { "D5-precondition does NOT hold" }))); }
                         if c.depth <= inst.t.n {
                             let hc = inst.hstar[c.depth.min(inst.t.n)][b];
                             if hc > NEG && c.value + hc > op.lb && c.ub < c.value + hc { out.push(v(&["C08"], "cutset-ub-too-low", format!("ub {} < best completion through it {} which beats the incumbent; {cctx}", c.ub, c.value + hc))); }
